@@ -399,9 +399,23 @@ func TestC12(t *testing.T) {
 			done()
 			return
 		}
-		l := prepare(c.ID, "", pluginCfgFor(wire), cfg, p.Launch)
+		mainPcfg := pluginCfgFor(wire)
+		if p.Path == "main-tlsprovider" {
+			// the plugin serves with a TLSProvider of its own (a certificate, no client authentication) and is
+			// launched by a host that asks for AutoMTLS
+			d := caseDir(c.ID, "tp")
+			sc, sk, _ := vp.GenCert()
+			os.WriteFile(filepath.Join(d, "cert.pem"), sc, 0o600)
+			os.WriteFile(filepath.Join(d, "key.pem"), sk, 0o600)
+			mainPcfg["tlsCert"], mainPcfg["tlsKey"] = filepath.Join(d, "cert.pem"), filepath.Join(d, "key.pem")
+		}
+		l := prepare(c.ID, "", mainPcfg, cfg, p.Launch)
 		defer l.hardKill()
-		if _, err := l.Client.Start(); err != nil {
+		if _, err := l.Client.Start(); err != nil && p.Path == "main-tlsprovider" {
+			o.Positive = "Start refused: " + err.Error()
+			done()
+			return
+		} else if err != nil {
 			o.SetupErr = "start: " + err.Error()
 			done()
 			return
@@ -424,6 +438,40 @@ func TestC12(t *testing.T) {
 			// multiplexed listener: the intruder takes the single yamux session before the host connects
 			attack(mainSock, func(cr cred) (bool, error) { return intrudeGRPC(mainSock, cr, true, false) })
 			o.PositiveOK, o.Positive = true, "n/a (the intruder holds the only session)"
+			within(20*time.Second, l.Client.Kill)
+			done()
+			return
+		}
+		if p.Path == "main-tlsprovider" {
+			ok, _, _ := within(30*time.Second, func() {
+				cp, err := l.Client.Client()
+				if err != nil {
+					o.Positive = "Client: " + err.Error()
+					return
+				}
+				if err := cp.Ping(); err != nil {
+					o.Positive = "Ping: " + err.Error()
+					return
+				}
+				raw, err := cp.Dispense("kv")
+				if err != nil {
+					o.Positive = "Dispense: " + err.Error()
+					return
+				}
+				if _, err := raw.(vp.Cli).Do("tag"); err != nil {
+					o.Positive = "call: " + err.Error()
+					return
+				}
+				o.PositiveOK, o.Positive = true, "the host's Ping and call were served"
+			})
+			if !ok {
+				o.Positive = "host operations hung"
+			}
+			if p.Proto == "netrpc" {
+				attack(mainSock, func(cr cred) (bool, error) { return intrudeNetRPC(mainSock, cr) })
+			} else {
+				attack(mainSock, func(cr cred) (bool, error) { return intrudeGRPC(mainSock, cr, false, false) })
+			}
 			within(20*time.Second, l.Client.Kill)
 			done()
 			return
